@@ -761,6 +761,70 @@ pub fn run_c12(tier: Tier) -> Report {
     }
     r.run("mvd-table", &cases);
 
+    // ---- zero-valued vectors inside four-vector neighbours: a zero vector must not be mistaken for
+    // "no vector" (an unavailable, intra or not-coded candidate). Every assignment of {0, a, b} to the
+    // four vectors of one neighbour, and of {0, a} to the vectors of two neighbours, for every
+    // target position of a 3x2 grid; the other macroblocks are zero-vector INTER or not coded.
+    let mut cases = vec![];
+    {
+        let (gw, gh) = (3usize, 2usize);
+        let reference = noise_intra(shdr(48, 32, 0, 0, 5, 0), seed);
+        let vals: [Mv; 3] = [(0, 0), (16, 0), (-6, 9)];
+        for t in 0..gw * gh {
+            let (tx, ty) = (t % gw, t / gw);
+            let mut nb = vec![];
+            if tx > 0 {
+                nb.push(t - 1);
+            }
+            if ty > 0 {
+                nb.push(t - gw);
+                if tx + 1 < gw {
+                    nb.push(t - gw + 1);
+                }
+            }
+            for rest in 0..2usize {
+                let base: Vec<Spec> = (0..gw * gh).map(|i| if i > t || (rest == 1 && i % 2 == 0) { Spec::NotCoded } else { Spec::Inter((0, 0), false) }).collect();
+                for target4v in [false, true] {
+                    let target = if target4v { Spec::Inter4V([(3, -5), (0, 0), (-7, 2), (0, 0)], false) } else { Spec::Inter((3, -5), false) };
+                    let mut emit = |specs: Vec<Spec>| {
+                        let mut p = Pic { hdr: shdr(48, 32, 1, 1, 5, 0), mbs: mbs_for(&specs, gw, false, false) };
+                        fix_last_flags(&mut p);
+                        cases.push(vec![reference.clone(), p]);
+                    };
+                    for &n in &nb {
+                        for code in 0..81usize {
+                            let vs: [Mv; 4] = std::array::from_fn(|k| vals[code / 3usize.pow(k as u32) % 3]);
+                            let mut specs = base.clone();
+                            specs[n] = Spec::Inter4V(vs, false);
+                            specs[t] = target.clone();
+                            emit(specs);
+                        }
+                    }
+                    for a in 0..nb.len() {
+                        for b in a + 1..nb.len() {
+                            for code in 0..256usize {
+                                let va: [Mv; 4] = std::array::from_fn(|k| vals[code >> k & 1]);
+                                let vb: [Mv; 4] = std::array::from_fn(|k| vals[(code >> (4 + k) & 1) * 2]);
+                                let mut specs = base.clone();
+                                specs[nb[a]] = Spec::Inter4V(va, false);
+                                specs[nb[b]] = Spec::Inter4V(vb, false);
+                                specs[t] = target.clone();
+                                emit(specs);
+                            }
+                        }
+                    }
+                    if nb.is_empty() {
+                        let mut specs = base.clone();
+                        specs[t] = target.clone();
+                        emit(specs);
+                    }
+                }
+            }
+        }
+    }
+    r.run("zero-vectors-in-four-vector-neighbours", &cases);
+    rep.add_nontrivial(cases.len() as u64);
+
     // ---- Annex D with PLUSPTYPE (UUI = 1): Table D.3 differentials, vector = predictor +
     // differential, legal range by picture width (Table D.1) and height (Table D.2). Every legal
     // vector value (quick: the neighbourhood of every class limit and every seventh value) at
@@ -837,7 +901,7 @@ pub fn run_c12(tier: Tier) -> Report {
 
     r.finish();
     rep.set_rule(
-        "whole P pictures compared with the reference decoder: all 64x64 (predictor, differential) pairs per component and jointly, in a 2-macroblock row and in the centre of a 3x3 grid; all four-vector sums -128..=124 x 3 decompositions x 2 components x 2 positions; every assignment of {INTER, INTER4V, INTRA, not-coded} to the existing neighbours of every target position on 9 macroblock grids x target {INTER, INTER4V}; every MVD codeword; with Annex D in PLUSPTYPE (UUI = 1): every legal vector at widths and heights on both sides of every range-class boundary; \
+        "whole P pictures compared with the reference decoder: all 64x64 (predictor, differential) pairs per component and jointly, in a 2-macroblock row and in the centre of a 3x3 grid; all four-vector sums -128..=124 x 3 decompositions x 2 components x 2 positions; every assignment of {INTER, INTER4V, INTRA, not-coded} to the existing neighbours of every target position on 9 macroblock grids x target {INTER, INTER4V}; every MVD codeword; every assignment of zero / non-zero vectors inside one and two four-vector neighbours of every target position; with Annex D in PLUSPTYPE (UUI = 1): every legal vector at widths and heights on both sides of every range-class boundary; \
          non-trivial = all (each case has a non-zero predictor, differential or neighbour)",
     );
     rep.sample(json!({"sweep": "pairs", "case": "32x16: MB0 vector (+15.5, 0), MB1 differential +0.5 -> expected (-16.0, 0)"}));
